@@ -52,10 +52,10 @@ def flow_b(ctx, mine, n, salt, kinds=("edited",)):
     rng = random.Random(ctx.seed * 715827883 % (2 ** 31) + salt)
     graphs, cases = [], []
     for i in range(n):
-        k = rng.choice([2, 2, 3, 3, 4, 5] if ctx.quick else [2, 3, 3, 4, 5, 6])
+        k = ([2, 3, 4, 5, 2, 3, 5, 4] if ctx.quick else [2, 3, 4, 5, 6, 3, 5, 4])[i % 8]          # every order in every run, not by chance
         live = None
         for _ in range(5):
-            live = cf.generated_live(rng, k)
+            live = cf.filter_live(rng, k) if (k >= 3 and i % 2 == 1) else cf.generated_live(rng, k)
             if live:
                 break
         if not live:
@@ -63,7 +63,7 @@ def flow_b(ctx, mine, n, salt, kinds=("edited",)):
         graphs.append({"k": k, "live": live})
         gi = len(graphs)
         acc = impl.accessor(live)
-        for j in range(4):
+        for j in range(4 if k < 5 else 10):          # index arithmetic beyond one byte starts at order 5: more cases there
             start = cf.pick_start(rng, live)
             L = rng.choice([3 * k + 4, 40, 80, 120, 200])
             if "long" in kinds and j == 0 and i % 8 == 0:
@@ -74,6 +74,8 @@ def flow_b(ctx, mine, n, salt, kinds=("edited",)):
                 w.append(a)
                 v = (4 * v + a) % len(live)
             kind = kinds[(i + j) % len(kinds)]
+            if k >= 5 and j >= 4 and "edited" in kinds:
+                kind = "edited"
             if L >= 600:
                 kind = "long"
             periodic = None
@@ -97,7 +99,7 @@ def flow_b(ctx, mine, n, salt, kinds=("edited",)):
                         sym = rng.choice([x for x in range(4) if x != w[p1]]) if op == "S" else (rng.randrange(4) if op == "I" else 0)
                         periodic = [{"op": op, "pos": p1, "sym": sym}, {"op": op, "pos": p2, "sym": sym}]
             if kind == "edited":
-                es = periodic or make_edits(rng, w, k, rng.choice([1, 1, 2, 3] if k <= 2 else [1, 1, 2]))        # keeps the candidate product (up to ~8k fragments per edit) in the low thousands
+                es = periodic or make_edits(rng, w, k, rng.choice([1, 1, 2, 3] if k <= 2 else ([1, 1, 2] if k < 5 else [1, 1, 1, 2])))        # keeps the candidate product (up to ~8k fragments per edit) in the low thousands
                 s = apply_edits(w, es)
                 only_subs = all(e["op"] == "S" for e in es)
                 indel = True if not only_subs else rng.choice([True, False])
